@@ -220,6 +220,10 @@ func genCands(r *gen.Rand, info *index.VerifDocInfo, mode string) ([]index.Verif
 func unitCases(r *gen.Rand, nShards, perDoc int) {
 	for si := 0; si < nShards; si++ {
 		rp := genRepo(r, fmt.Sprintf("repo%d", si), uint16(r.Intn(65536)))
+		if si == 0 {
+			// always: a shard of empty documents (the `averageFileLength == 0` guard of scoreFileBM25)
+			rp = crepo{Name: "empty", Rank: 3, Docs: []cdoc{{Name: "a/foo.go"}, {Name: "needle_test.go"}}}
+		}
 		data, err := shardBytes(&rp)
 		if err != nil {
 			panic(err)
